@@ -291,7 +291,9 @@ def rand_query(rng, depth, nletters=2, maxlen=2, scored_only=False, boosts=True,
     b4 = rng.choice([4, 4, 4, 2, 8, 16]) if boosts else 4
     f = rng.choice(TEXT_FIELDS)
     if depth <= 0 or rng.random() < 0.25:
-        choices = ["term", "term", "term", "every", "null"] if scored_only else LEAF_OPS
+        # (scored_only: the leaves whose score the documentation fixes - multi-term leaves score their boost)
+        choices = ["term", "term", "term", "every", "null", "term", "prefix", "wildcard", "termrange", "numrange"] \
+            if scored_only else LEAF_OPS
         if ops:
             choices = [c for c in choices if c in ops] or ["term"]
         op = rng.choice(choices)
